@@ -1078,7 +1078,7 @@ func c04check(c *ctx, cases []c04case) {
 	res := c.res
 	obs := make([]c04obs, len(cases))
 	var wg sync.WaitGroup
-	sem := make(chan struct{}, 16)
+	sem := make(chan struct{}, vlib.Conc(16))
 	for i := range cases {
 		wg.Add(1)
 		sem <- struct{}{}
